@@ -283,8 +283,10 @@ type synMultiTag struct {
 	N *big.Int
 }
 
+// (tagged, so that the encoding is never empty: an untagged struct whose only field is an
+// empty rest field marshals to zero bytes, a degenerate case no SSH message has)
 type synRestOnly struct {
-	R []byte `ssh:"rest"`
+	R []byte `sshtype:"7" ssh:"rest"`
 }
 
 type synMpints struct {
